@@ -786,6 +786,49 @@ def bounded(rep, tier):
         rep.add_bounded(Bounded(cid, False, inp, obs, 'value read back unchanged', bound=f'len<={maxlen}'))
 
 
+def id_closure(rep, dname):
+    """an unquoted name is ONE token: the language of unquoted ID words is closed under appending any character that can occur in an unquoted name
+    (w in L, c a name character => wc in L) - otherwise some name is cut into two tokens at a position where the pattern cannot go on (`col$1$x`)"""
+    d = lrtab.load(dname)
+    pat = None
+    for name, value in d.Lexer._rules:
+        if name == 'ID':
+            pat = value if isinstance(value, str) else getattr(value, 'pattern', None)
+    fn = f'{d.lexer_module}:{d.lexer_class_name}.ID'
+    oid = f'C04.lex.id.closed.{dname}'
+    clause = 'forall w in L(ID) without back-quotes, forall characters c occurring in such words: w c in L(ID)'
+    if pat is None:
+        rep.undecided(oid, 'fst', 'no ID rule', function=fn, clause=clause)
+        return
+    try:
+        L = regex_dfa(pat, getattr(d.Lexer, 'reflags', 0), ALPHABET)
+        bare = L.minus(codecs.containing(BT))
+        chars = [c for c in ALPHABET if c != BT and not bare.intersect(codecs.containing(c)).is_empty()]
+        bad = None
+        for c in chars:
+            ext = bare.concat(Dfa.literal(ALPHABET, c)).minus(bare)
+            if not ext.is_empty():
+                bad = (c, ext.witness())
+                break
+    except FstError as e:
+        rep.undecided(oid, 'fst', str(e), function=fn, clause=clause)
+        return
+    if not chars:
+        rep.undecided(oid, 'fst', 'the ID language has no unquoted word over the alphabet', function=fn, clause=clause)
+    elif bad is None:
+        rep.proved(oid, 'fst', f'closed under appending each of {"".join(chars)!r} (class representatives)', function=fn, clause=clause)
+    else:
+        c, w = bad
+        w = ''.join(w) if not isinstance(w, str) else w
+        toks = None
+        try:
+            toks = [(t.type, t.value) for t in d.Lexer().tokenize('select ' + w)]
+        except Exception as e:
+            toks = f'{type(e).__name__}: {e}'
+        rep.failed(oid, 'fst', f'{w[:-1]!r} is a name, {c!r} is a name character, but {w!r} is not one ID token', function=fn, clause=clause,
+                   replay={'input': 'select ' + w, 'dialect': dname, 'fires': not (isinstance(toks, list) and len(toks) == 2), 'observed': f'tokens {toks}', 'expected': 'SELECT + one ID token'})
+
+
 def check(rep, tier):
     from vlib import statecensus
     statecensus.obligations(rep, 'C04', 'parser')
@@ -830,6 +873,7 @@ def check(rep, tier):
         else:
             rep.proved(f'C04.lex.quote-start.{dname}', 'fst', 'no other token rule can match at a quote character', function=f'{d.lexer_module}:{d.lexer_class_name}',
                        clause='forall rules r != string rules: no word of L(r) starts with a quote')
+        id_closure(rep, dname)
         decode_strings(rep, dname)
         encode_constant(rep, dname)
         variables(rep, dname)
